@@ -20,11 +20,12 @@ from . import refmachine as rm
 PROP = 'C02'
 
 
-def make_lib():
+def make_lib(light: bool = False):
     from . import bridge
     P = bridge.P
     from proof_generation.tautology import Tautology
-    lib = Tautology()
+    from proof_generation.proofs.propositional import Propositional
+    lib = Propositional() if light else Tautology()
     extra = [P.Implies(P.Symbol('a'), P.Symbol('b')), P.Symbol('a'),
              P.Implies(P.App(P.Symbol('f'), P.EVar(0)), P.MetaVar(0, e_fresh=(P.EVar(0),))),
              P.Exists(0, P.App(P.Symbol('f'), P.EVar(0)))]
@@ -68,15 +69,17 @@ def build(desc, lib):
     raise ValueError(k)
 
 
-def level0():
+def level0(nax: int = 10):
     out = [('prop1',), ('prop2',), ('prop3',), ('exists_quantifier',)]
-    out += [('ax', i) for i in range(10)]
+    out += [('ax', i) for i in range(nax)]
     return out
 
 
-def lemma_descs(npool):
+def lemma_descs(npool, only=None):
     out = []
     for name, ar in LEMMAS:
+        if only is not None and name not in only:
+            continue
         for combo in itertools.product(range(npool), repeat=ar):
             out.append(('lemma', name, combo))
     return out
@@ -258,6 +261,30 @@ def shipped_chunk(name):
     return out
 
 
+def graph_chunk(specs):
+    """modules with import graphs (chain, diamond, repeated import): loads of axioms declared in imported modules"""
+    from . import modgraph
+    h = par.harness()
+    out = {'evals': 0, 'viol': []}
+    for spec in specs:
+        shape, idx, mode, share = spec
+        for opt in (False, True):
+            out['evals'] += 1
+            try:
+                top, info = modgraph.build(shape, tuple(idx), mode, share)
+                files = pyrun.serialize_real(top, opt)
+            except Exception:  # noqa: BLE001
+                continue      # the toolkit refuses: nothing to accept
+            g, c, p = pyrun.triple(files)
+            if not h.verify(g, c, p):
+                r2 = rm.verify(g, c, p)
+                reason = r2[1] if r2[0] == 'REJECT' else r2[0]
+                out['viol'].append(({'kind': 'graph_module_rejected', 'shape': shape, 'reason': reason}, None,
+                                    f'checker rejects module graph {shape} axioms={list(idx)} claims={mode} share={share} optimize={opt}: {reason}'))
+                break
+    return out
+
+
 SHIPPED = [('proof_generation.proofs.propositional', 'Propositional'), ('proof_generation.proofs.small_theory', 'SmallTheory'),
            ('proof_generation.proofs.substitution', 'Substitution'), ('proof_generation.tautology', 'Tautology'),
            ('proof_generation.proofs.kore', 'KoreLemmas'), ('proof_generation.proofs.definedness', 'Definedness')]
@@ -304,6 +331,12 @@ def main(argv=None) -> int:
         agg['shipped_runs'] = agg.get('shipped_runs', 0) + out['evals']
         for sig, d, what in out['viol']:
             chk.violation(sig, {'signature': sig}, what)
+    from . import modgraph
+    gspecs = [sp for sp in modgraph.family(4 if thorough else 3) if sp[2] != 'none']
+    for out in par.pmap(graph_chunk, par.chunks(gspecs, n)):
+        agg['graph_modules'] = agg.get('graph_modules', 0) + out['evals']
+        for sig, d, what in out['viol']:
+            chk.violation(sig, {'signature': sig}, what)
     # level 0 + lemmas
     l0 = level0() + lemma_descs(5 if thorough else 4)
     ok0 = merge(chk, par.pmap(judge_chunk, [(ch, None) for ch in par.chunks(l0, n)]), agg)
@@ -311,7 +344,7 @@ def main(argv=None) -> int:
     prim0 = [d for d in ok0 if d[0] != 'lemma']
     # level 1: every constructor on the primitives; instantiate/gen on a few lemma instances as well
     lem_sample = [d for d in ok0 if d[0] == 'lemma'][::7]
-    l1 = successors(prim0, prim0, 12 if thorough else 9, 6 if thorough else 4)
+    l1 = successors(prim0, prim0, 12 if thorough else 7, 6 if thorough else 3)
     l1 += successors(lem_sample, [], 6, 3, with_mp=False)
     ok1 = merge(chk, par.pmap(judge_chunk, [(ch, None) for ch in par.chunks(l1, n)]), agg)
     levels.append(len(ok1))
@@ -328,7 +361,7 @@ def main(argv=None) -> int:
         if key not in seen:
             seen.add(key)
             rep1.append(d)
-    rep1 = rep1[:(600 if thorough else 120)]
+    rep1 = rep1[:(600 if thorough else 60)]
     l2 = successors(rep1, prim0 + rep1, 5 if thorough else 4, 0, with_mp=True)
     ok2 = merge(chk, par.pmap(judge_chunk, [(ch, None) for ch in par.chunks(l2, n)]), agg)
     levels.append(len(ok2))
@@ -336,7 +369,7 @@ def main(argv=None) -> int:
     pyrun.cleanup()
     chk.set('states', len(ok0) + len(ok1) + len(ok2))
     chk.set('transitions', agg.get('evals', 0))
-    chk.set('traces_validated_against_impl', agg.get('modules_verified', 0) + agg.get('shipped_runs', 0))
+    chk.set('traces_validated_against_impl', agg.get('modules_verified', 0) + agg.get('shipped_runs', 0) + agg.get('graph_modules', 0))
     chk.set('exhaustive', True)
     chk.set('accepted_expressions_per_level', levels)
     chk.set('detail', agg)
